@@ -130,7 +130,7 @@ structure CCtx (env : Env) (s0 W : State) : Prop where
   kind0 : ∀ m, (s0.nodeD m).kind = (W.nodeD m).kind
   edge : EdgeOK W
 
-theorem _root_.IncrVerif.Proofs.Step.Quiet.value_eq {s s' : State} (q : Step.Quiet s s') (env : Env) (m : Nat) : s'.value env m = s.value env m :=
+theorem _root_.IncrVerif.Proofs.Step.Quiet.value_eqM {s s' : State} (q : Step.Quiet s s') (env : Env) (m : Nat) : s'.value env m = s.value env m :=
   value_congr env s s' q.size (fun k => by
     simp only [valueCore, (q.node k).kind, (q.node k).valid, (q.node k).value]) m
 
@@ -219,7 +219,7 @@ theorem childChanged_flags {env : Env} {s0 W : State} (C : CCtx env s0 W) : ∀ 
       | none => rw [hv] at h1; cases h1
       | some x => exact ⟨x, rfl⟩
     obtain ⟨cn, hcn⟩ := hcv
-    have hcnW : W.value env i = some cn := by rw [← q.value_eq env i]; exact hcn
+    have hcnW : W.value env i = some cn := by rw [← q.value_eqM env i]; exact hcn
     have hparents : (t.nodeD p).parents = (W.nodeD p).parents := (q.node p).parents
     -- what `p` read before and reads now
     have hk0 : (s0.nodeD p).kind = .mapRef pr i := by rw [C.kind0]; exact hk
